@@ -95,7 +95,7 @@ pub fn compare(ctx: &Ctx, reg: &dyn Registry, prop: &str, readings: &[u64], ops:
         let i = (0..a.steps.len().max(b.steps.len())).find(|&i| a.steps.get(i) != b.steps.get(i));
         let what = match i {
             Some(i) => format!(
-                "op #{} of [{}] with deviations {:?}: implementation returned {} after {} readings, the documented procedure gives {} after {} readings",
+                "op #{} of [{:.160}] with deviations {:?}: implementation returned {} after {} readings, the documented procedure gives {} after {} readings",
                 i,
                 ops_short(ops),
                 devs,
@@ -104,7 +104,7 @@ pub fn compare(ctx: &Ctx, reg: &dyn Registry, prop: &str, readings: &[u64], ops:
                 b.steps.get(i).map(|s| s.0.to_json().to_string()).unwrap_or("-".into()),
                 b.steps.get(i).map(|s| s.1).unwrap_or(0)
             ),
-            None => format!("after [{}] with deviations {:?}: pool {:#x}/half {} vs documented {:#x}/{}", ops_short(ops), devs, a.pool, a.half, b.pool, b.half),
+            None => format!("after [{:.160}] with deviations {:?}: pool {:#x}/half {} vs documented {:#x}/{}", ops_short(ops), devs, a.pool, a.half, b.pool, b.half),
         };
         let kind = match i.and_then(|i| a.steps.get(i)) {
             Some((Obs::Panic(_), _)) => "panic",
@@ -204,6 +204,8 @@ pub fn run(reg: &dyn Registry, ctx: &Ctx) -> Outcome {
             lens.extend([p - 1, p, p + 1]);
             p *= 2;
         }
+        // 16-bit retry counters
+        lens.extend([65535, 65536, 65537]);
         // (rounds, collection index in which the run starts, measurement offset, k, kind a, kind b)
         let mut jobs2: Vec<(u8, usize, usize, usize, Dev, Dev)> = Vec::new();
         for rounds in [1u8, 2, 3] {
@@ -215,6 +217,10 @@ pub fn run(reg: &dyn Registry, ctx: &Ctx) -> Outcome {
                                 for &b in &kinds {
                                     jobs2.push((rounds, coll, start, k, a, b));
                                 }
+                            }
+                        } else if k > 20000 {
+                            if rounds == 1 && start == 1 {
+                                jobs2.push((rounds, coll, start, k, Dev::Repeat3, Dev::Repeat3));
                             }
                         } else if start <= 1 || start == rounds as usize + 1 {
                             // long runs: the stuck kinds only (a run of extreme jumps is not stuck)
@@ -262,6 +268,35 @@ pub fn run(reg: &dyn Registry, ctx: &Ctx) -> Outcome {
         }
         compare(ctx, reg, "C12", &rd, &ops, &[], &mut tot);
         ctx.add("states", 1);
+    }
+    // a long life of one object: 2^16 + 8 collections (per-object counters), mixed calls
+    {
+        let n = (1usize << 16) + 8;
+        let rd = jitter_env::raw_readings(ctx.seed ^ 0x1216, n * jitter_env::readings_per_word(1) + 64);
+        let mut ops = vec![Op::SetRounds(1)];
+        for i in 0..n {
+            if i % 5 == 3 {
+                ops.push(Op::U32);
+                ops.push(Op::U32);
+            } else {
+                ops.push(Op::U64);
+            }
+        }
+        compare(ctx, reg, "C12", &rd, &ops, &[], &mut tot);
+        ctx.add("states", 1);
+    }
+    // coarse clocks: every reading a multiple of 100 / 1000 / 2^20, irregular steps
+    for (gran, salt) in [(100u64, 1u64), (1000, 2), (1 << 20, 3), (2, 4)] {
+        let raw = jitter_env::raw_readings(ctx.seed ^ 0x12C0 ^ salt, 600);
+        let rd: Vec<u64> = raw.iter().map(|t| (t / 7) * gran).collect();
+        for rounds in [1u8, 2, 3] {
+            for h in [vec![Op::U32, Op::U32, Op::U64, Op::Fill(4), Op::U32, Op::U32], vec![Op::U64, Op::U32, Op::Fill(9), Op::U32, Op::TimerStats(true), Op::U32], vec![Op::Fill(3), Op::U32, Op::U32, Op::Fill(12), Op::U32]] {
+                let mut ops = vec![Op::SetRounds(rounds)];
+                ops.extend(h);
+                compare(ctx, reg, "C12", &rd, &ops, &[], &mut tot);
+                ctx.add("states", 1);
+            }
+        }
     }
     // default construction (rounds 64) without set_rounds
     {
